@@ -378,6 +378,18 @@ where
             }
         }
 
+        // The productions added above (the start rule's and, for Eco, those of the implicit
+        // rules) have neither an action nor a place in the source: give them entries all the
+        // same, so that every `PIdx` below `prods_len()` can be passed to every accessor.
+        actions.resize(prods.len(), None);
+        action_spans.resize(prods.len(), None);
+        let mut prod_spans = ast
+            .prods
+            .iter()
+            .map(|prod| prod.prod_span)
+            .collect::<Vec<_>>();
+        prod_spans.resize(prods.len(), Span::new(0, 0));
+
         let avoid_insert = if let Some(ai) = &ast.avoid_insert {
             let mut aiv = Vob::from_elem(false, token_names.len());
             for n in ai.keys() {
@@ -410,7 +422,7 @@ where
                 .map(|x| x.unwrap().into_boxed_slice())
                 .collect(),
             prod_precs: prod_precs.into_iter().map(Option::unwrap).collect(),
-            prod_spans: ast.prods.iter().map(|prod| prod.prod_span).collect(),
+            prod_spans: prod_spans.into_boxed_slice(),
             implicit_rule: implicit_rule.map(|x| rule_map[&x]),
             actions: actions.into_boxed_slice(),
             action_spans: action_spans.into_boxed_slice(),
@@ -1712,5 +1724,22 @@ mod test {
                 Start -> () : ;
             "#;
         YaccGrammar::<u32>::from_str(src).unwrap();
+    }
+
+    #[test]
+    fn test_accessors_on_added_productions() {
+        let grm = YaccGrammar::new(
+            YaccKind::Eco,
+            "%implicit_tokens ws1 ws2\n%start S\n%%\nS: 'a' { x };",
+        )
+        .unwrap();
+        for pidx in grm.iter_pidxs() {
+            grm.prod_span(pidx);
+            grm.action(pidx);
+            grm.action_span(pidx);
+        }
+        assert_eq!(grm.prod_span(grm.start_prod()), Span::new(0, 0));
+        assert_eq!(grm.action(grm.start_prod()), &None);
+        assert_eq!(grm.action_span(grm.start_prod()), None);
     }
 }
